@@ -202,12 +202,26 @@ static void gate(const char *kind, const char *call, const char *path)
   in_shim--;
 }
 
+static int gate_only_match(const char *p)
+{
+  /* VSHIM_GATE_ONLY = comma separated substrings; empty/unset = every queue/mailbox path */
+  const char *o = getenv("VSHIM_GATE_ONLY"); char item[64]; const char *c;
+  if (!o || !*o) return 1;
+  while (*o) {
+    size_t l; c = strchr(o, ','); l = c ? (size_t)(c - o) : strlen(o);
+    if (l && l < sizeof item) { memcpy(item, o, l); item[l] = 0; if (strstr(p, item)) return 1; }
+    if (!c) break;
+    o = c + 1;
+  }
+  return 0;
+}
+
 static int gated_path(const char *p)
 {
   if (!gatepath || !p) return 0;
   /* queue tree and mailbox files: relative names used by the programs */
   static const char *pre[] = {"mess/","todo/","intd/","info/","local/","remote/","bounce/","pid/","lock/","todo","Maildir","./Maildir","tmp/","new/","cur/","./mbox","mbox",0};
-  int i; for (i = 0; pre[i]; ++i) if (!strncmp(p, pre[i], strlen(pre[i]))) return 1;
+  int i; for (i = 0; pre[i]; ++i) if (!strncmp(p, pre[i], strlen(pre[i]))) return gate_only_match(p);
   return 0;
 }
 
@@ -217,10 +231,9 @@ static int gated_fd(int fd)
   if (!gatepath) return 0;
   if (fd == tracefd || fd == gatefd || fd == ctlfd) return 0;
   if (real_fstat(fd, &st) < 0) return 0;
-  if (S_ISREG(st.st_mode) || S_ISFIFO(st.st_mode)) {
+  if (S_ISREG(st.st_mode) || S_ISFIFO(st.st_mode) || S_ISDIR(st.st_mode)) {
     fdpath(fd, b, sizeof b);
-    if (home && strstr(b, home)) return 1;
-    if (strstr(b, "/queue/") || strstr(b, "Maildir") || strstr(b, "mbox")) return 1;
+    if ((home && strstr(b, home)) || strstr(b, "/queue/") || strstr(b, "Maildir") || strstr(b, "mbox")) return gate_only_match(b);
   }
   return 0;
 }
@@ -347,7 +360,7 @@ ssize_t read(int fd, void *buf, size_t n)
 {
   REAL(read); ssize_t r; int f; init();
   if (in_shim || fd == tracefd || fd == gatefd || fd == ctlfd) return real_read(fd, buf, n);
-  if (gatepath && !fd_is_reg(fd)) {
+  if (gatepath && !getenv("VSHIM_GATE_BLOCKREAD") && !fd_is_reg(fd)) {
     /* poll-and-yield: never block while holding the scheduler's token */
     for (;;) {
       struct pollfd pf; pf.fd = fd; pf.events = POLLIN; pf.revents = 0;
@@ -542,7 +555,7 @@ DIR *opendir(const char *a)
 struct dirent *readdir(DIR *d)
 {
   REAL(readdir); struct dirent *e; init();
-  if (gatepath && !in_shim) { char p[600]; fdpath(dirfd(d), p, sizeof p); if (gated_fd(dirfd(d)) || strstr(p, "/queue/")) gate("REQ", "readdir", p); }
+  if (gatepath && !in_shim) { char p[600]; fdpath(dirfd(d), p, sizeof p); if (gated_fd(dirfd(d))) gate("REQ", "readdir", p); }
   if (maybe_fault("readdir") == 1) { tr("readdir\t-1\t%d\tFAULT", errno); return 0; }
   in_shim++; errno = 0; e = real_readdir(d); in_shim--;
   if (tracefd >= 0) { char en[300]; esc(en, sizeof en, e ? e->d_name : "(end)"); tr("readdir\t%s", en); }
